@@ -117,7 +117,7 @@ def _sub_lang(sub) -> Lang:
     return Lang.from_nfa(nfa)
 
 
-@rule("L6", "PATTERN-GUARDS: RUN / placeholder patterns ignore text inside string literals; every placeholder is matched; accepted procedure names can be read back", ["C13", "C15", "C10", "C11"], floor=8, default_props=["C13", "C15", "C10"])
+@rule("L6", "PATTERN-GUARDS: RUN / placeholder patterns ignore text inside string literals; every placeholder is matched; accepted procedure names can be read back", ["C13", "C15", "C10", "C11", "C07"], floor=8, default_props=["C13", "C15", "C10"])
 def l6(ctx: Ctx):
     pats = bank_patterns(ctx)
     L = b09lib(ctx)
@@ -144,12 +144,12 @@ def l6(ctx: Ctx):
                 continue
             n_ph += occ
             hit = len(tag.findall(raw))
-            ctx.ob(f"placeholder:{p.name}:{_ord(p, ln)}", hit == occ, "" if hit == occ else f"`{raw.strip()}` contains {occ} size placeholder(s), STR_STORAGE_TAG matches {hit}: `STRING<<>>` survives into the bundle, which BASIC09 cannot load", file=LIB_REL, line=ln, props=["C13", "C10"])
+            ctx.ob(f"placeholder:{p.name}:{_ord(p, ln)}", hit == occ, "" if hit == occ else f"`{raw.strip()}` contains {occ} size placeholder(s), STR_STORAGE_TAG matches {hit}: `STRING<<>>` survives into the bundle, which BASIC09 cannot load", file=LIB_REL, line=ln, props=["C13", "C10", "C07"])
     ctx.need(n_ph >= 5, "placeholders", f"only {n_ph} `STRING<<>>` placeholders found in ecb.b09")
     # no placeholder-like text remains possible after substitution: the tag's core is literally STRING<<>>
     core = re.sub(r"\(\?=.*$", "", pats["STR_STORAGE_TAG"].pattern)
     okc = re.fullmatch(core, ": STRING<<>>", pats["STR_STORAGE_TAG"].flags) is not None and re.fullmatch(core, ":string<<>>", pats["STR_STORAGE_TAG"].flags) is not None
-    ctx.ob("STR_STORAGE_TAG:core", okc, "" if okc else f"placeholder pattern core `{core}` does not match `: STRING<<>>` / `:string<<>>`", file=PROCBANK_REL, line=1, props=["C13", "C10"])
+    ctx.ob("STR_STORAGE_TAG:core", okc, "" if okc else f"placeholder pattern core `{core}` does not match `: STRING<<>>` / `:string<<>>`", file=PROCBANK_REL, line=1, props=["C13", "C10", "C07"])
     # procedure names: what convert() accepts must be readable by the header pattern
     env = peg(ctx).env
     pn = env.get("PROCNAME_REGEX")
